@@ -69,6 +69,15 @@ func (cr *caseRun) setKnown() {
 
 func (cr *caseRun) setListenerClosed() { cr.lcOnce.Do(func() { close(cr.listenerClosed) }) }
 
+// patience: how long a script waits to learn that closing is set before it gives up and leaves. With
+// a shutdown that has no deadline (timeout matrix) Run returns only once every script has left.
+func (cr *caseRun) patience() time.Duration {
+	if cr.c.Matrix != "" {
+		return 6 * time.Second
+	}
+	return 20 * time.Second
+}
+
 func isClosed(ch chan struct{}) bool {
 	select {
 	case <-ch:
@@ -172,7 +181,7 @@ func (cr *caseRun) startOrigins() error {
 	}
 	cr.tunPeers = map[int]*rig.Peer{}
 	for k, sc := range cr.c.Conns {
-		if sc.Phase != "tunnel" && sc.Phase != "dial" {
+		if sc.Phase != "tunnel" && sc.Phase != "dial" && sc.After != "connect" {
 			continue
 		}
 		k := k
